@@ -383,18 +383,36 @@ func c18Formulas(p *ana.Prog, r *ana.Result) {
 	// DurationFromTimeInterval: i >> 16
 	fn := mustFunc(p, r, "net/csptp", "DurationFromTimeInterval")
 	if fn != nil {
-		ok := false
-		ana.Instrs(fn, func(in ssa.Instruction) {
-			if ret, isR := in.(*ssa.Return); isR {
-				if sh, isB := ana.StripConv(ret.Results[0]).(*ssa.BinOp); isB && sh.Op == token.SHR {
-					k, _ := ana.ConstInt(sh.Y)
-					if pr, isP := sh.X.(*ssa.Parameter); isP && pr.Name() == "i" && k == 16 {
-						ok = true
+		// every value the function can return is i >> 16 (through merges): no input is special
+		var isShift func(v ssa.Value, d int) bool
+		isShift = func(v ssa.Value, d int) bool {
+			v = ana.StripConv(v)
+			if ph, isPh := v.(*ssa.Phi); isPh && d < 4 {
+				for _, e := range ph.Edges {
+					if !isShift(e, d+1) {
+						return false
 					}
+				}
+				return len(ph.Edges) > 0
+			}
+			if sh, isB := v.(*ssa.BinOp); isB && sh.Op == token.SHR {
+				k, _ := ana.ConstInt(sh.Y)
+				if pr, isP := ana.StripConv(sh.X).(*ssa.Parameter); isP && pr == fn.Params[0] && k == 16 {
+					return true
+				}
+			}
+			return false
+		}
+		ok, nRet := true, 0
+		ana.Instrs(fn, func(in ssa.Instruction) {
+			if ret, isR := in.(*ssa.Return); isR && len(ret.Results) == 1 {
+				nRet++
+				if !isShift(ret.Results[0], 0) {
+					ok = false
 				}
 			}
 		})
-		if ok {
+		if ok && nRet > 0 {
 			r.Ok("C18.formula", ana.FuncName(fn), "drop-16-subnanosecond-bits", p.Pos(fn.Pos()), "DurationFromTimeInterval(i) = i >> 16 (arithmetic shift of the signed value)")
 		} else {
 			r.Violate("C18.formula", ana.FuncName(fn), "drop-16-subnanosecond-bits", p.Pos(fn.Pos()), "correction fields are not converted by an arithmetic right shift of 16")
